@@ -214,6 +214,15 @@ func propC14(t *rapid.T) {
 			if len(enums) > 0 {
 				fns = append(fns, newqf.Enums(enums))
 			}
+			var wantOrder []string
+			if rapid.Bool().Draw(t, "jsoncolumnorder") {
+				names := make([]string, len(in.Cols))
+				for i, c := range in.Cols {
+					names[i] = hx.JSONText(c.Name)
+				}
+				wantOrder = rapid.Permutation(names).Draw(t, "jsonorder")
+				fns = append(fns, newqf.ColumnOrder(wantOrder...))
+			}
 			var back qframe.QFrame
 			if perr := hx.Safely(func() { back = qframe.ReadJSON(bytes.NewReader(out), fns...) }); perr != nil {
 				t.Fatalf("ReadJSON panicked: %v\njson %q\n%s", perr, clipS(string(out)), desc())
@@ -224,6 +233,9 @@ func propC14(t *rapid.T) {
 			got, err := hx.Observe(back)
 			if err != nil {
 				t.Fatalf("observe: %v\n%s", err, desc())
+			}
+			if wantOrder != nil && fmt.Sprint(got.Names()) != fmt.Sprint(wantOrder) {
+				t.Fatalf("ReadJSON with ColumnOrder(%q) gave the columns %q\n%s", wantOrder, got.Names(), desc())
 			}
 			if back.Len() != in.N() || len(got.Cols) != len(in.Cols) {
 				t.Fatalf("ReadJSON gave %d rows x %d columns, frame has %d x %d\njson %q\n%s", back.Len(), len(got.Cols), in.N(), len(in.Cols), clipS(string(out)), desc())
